@@ -817,6 +817,23 @@ def rule_l8(ctx):
                         body.term(P)["sp"], witness=["line %d" % body.term(x)["sp"][1] for x in w if body.term(x)][-10:]))
         return res
     res.ok({"probes": ["line %d" % body.term(b)["sp"][1] for b in probes], "verdict": "every path to Ok asks for the next token"})
+    # the literal parser can record an error and still hand back a node (mismatching range suffixes): Ok only with an empty error list
+    from . import C02 as _C02
+    gate_edges = set()
+    for eb, et in body.calls():
+        if mir.last_seg(mir.callee(et) or "") == "is_empty" and "ParseError" in et["args"][0]["place"]["ty"]:
+            for sb in range(body.n):
+                st = body.term(sb)
+                if st and st["k"] == "switch" and st["discr"]["k"] in ("copy", "move") and all(v == 0 for v, _ in st["targets"]) and \
+                        any(r[:2] == ("call", eb) for (r, p) in body.trace(st["discr"]["place"], through={})):
+                    gate_edges.add((sb, st["otherwise"]))
+    ungated = [ob for ob in oks if not (gate_edges and _C02._dominated_by_edges(body, gate_edges, ob))]
+    if ungated:
+        res.bad(Finding("L8", fs[0]["id"], "Ok although the literal parser recorded an error",
+                        "the Ok result is not guarded by errors.is_empty(): `0u8..3u16` records InvalidRangeTypes, still yields a node, and is accepted as `0u8..3u8`",
+                        body.blocks[ungated[0]]["stmts"][-1]["sp"] if body.blocks[ungated[0]]["stmts"] else body.fn["sp"]))
+    else:
+        res.ok({"verdict": "Ok only on the errors.is_empty() edge"})
     pushes = {b for b, t in body.calls() if mir.last_seg(mir.callee(t) or "") in ("push_error", "push_error_for_next")
               or (mir.last_seg(mir.callee(t) or "") == "push" and "ParseError" in t["args"][0]["place"]["ty"])}
     empties = [(b, t) for b, t in body.calls() if mir.last_seg(mir.callee(t) or "") == "is_empty" and "ParseError" in t["args"][0]["place"]["ty"]]
